@@ -9,7 +9,28 @@ from vf.checks import common
 PROP = 'C01'
 
 
+def m2m_subclass_tag(*specs):
+    """'|m2m-subclass-with-db_table' when one of the specs has a
+    many-to-many field of a project-specific class with an explicit table
+    name (django-evolution only tracks db_table for ManyToManyField itself:
+    C01-F12)."""
+    for sp in specs:
+        if not sp:
+            continue
+        for _label, m in S.iter_models(sp):
+            for f in m['fields']:
+                if f['type'] == 'M2M' and f.get('sub') and \
+                        f['attrs'].get('db_table'):
+                    return '|m2m-subclass-with-db_table'
+    return ''
+
+
 def judge(node, step, tr):
+    return [(fp + m2m_subclass_tag(node.spec, tr.spec_after), d)
+            for fp, d in _judge(node, step, tr)]
+
+
+def _judge(node, step, tr):
     out = []
     kind, detail, shape = EA.step_shape(
         step, tr.res.statements if tr.res else [])
@@ -340,6 +361,7 @@ def hinted_one(project, target, stats, violations):
                     fps.append((fp, {'where': where,
                                      'hint': str(hint)[:300]}))
         for fp, detail in fps:
+            fp += m2m_subclass_tag(project, target)
             ent = violations.get(fp)
             size = len(S.canon(replay))
             if ent is None:
